@@ -16,6 +16,7 @@ import InToto.Proofs.PipeThresholds
 import InToto.Proofs.RulesMore
 import InToto.Proofs.Subst
 import InToto.Proofs.Cert
+import InToto.Proofs.CleanOrder
 
 namespace InToto.C10
 open InToto InToto.Schema InToto.Metadata InToto.Verify InToto.PipeProofs
@@ -45,6 +46,44 @@ theorem reference_link_order (l₁ l₂ : List (Str × LinkView)) (hp : l₁.Per
 theorem artifact_order (E : RulesSpec.Env) (rs : List Rules.Rule) (q₁ q₂ : List Str) (h : q₁.Perm q₂) :
     (RulesSpec.run E rs q₁).isSome = (RulesSpec.run E rs q₂).isSome :=
   RulesProofs.run_perm E rs q₁ q₂ h
+
+/-- artifact MAPS (finding F20, repaired): before a MATCH rule compares hashes, entries recorded under
+    names that are not clean paths are moved to their clean name.  Two listings of one Go map
+    (permutations, keys pairwise distinct) are cleaned to two listings of one map: every lookup
+    `m[k]` and `_, ok := m[k]` agrees, whatever names collide after cleaning. -/
+theorem artifact_map_order (l₁ l₂ : List (Str × Rules.HashObj)) (hp : l₁.Perm l₂) (hn : (l₁.map Prod.fst).Nodup) (k : Str) :
+    Rules.artsGet (Rules.cleanArts (some l₁)) k = Rules.artsGet (Rules.cleanArts (some l₂)) k ∧
+    Rules.artsHas (Rules.cleanArts (some l₁)) k = Rules.artsHas (Rules.cleanArts (some l₂)) k :=
+  CleanOrder.cleanArts_get_perm l₁ l₂ hp hn k
+
+/-- ... and WHICH entry survives under a clean name `c` is a function of the map alone: the one moved
+    there from the not-clean name that sorts last among those cleaning to `c`; if there is none,
+    the entry recorded under `c` itself. -/
+theorem clean_up_survivor (l : List (Str × Rules.HashObj)) (hn : (l.map Prod.fst).Nodup) (c : Str) (v : Rules.HashObj) :
+    (∃ r, Rules.cleanArts (some l) = some r ∧ lookup c r = some v) ↔ CleanOrder.Survivor l c v :=
+  CleanOrder.cleanArts_lookup_iff l hn c v
+
+/-- a whole MATCH rule does not see the order of any artifact map of any link: same consumed
+    artifacts, and the link context it leaves behind (maps cleaned in place) is again a listing of the
+    same maps - so the statement composes over a rule list. -/
+theorem match_rule_map_order (glob : Str → Str → Bool) (pattern srcPrefix dstPrefix : Str) (dstType : Rules.ArtType)
+    (dstName srcName : Str) (srcType : Rules.ArtType) (queue : List Str) (ctx₁ ctx₂ : Rules.Ctx)
+    (h : CleanOrder.CtxPermEq ctx₁ ctx₂) :
+    (Rules.verifyMatchRule glob pattern srcPrefix dstPrefix dstType dstName srcName srcType queue ctx₁).1 =
+      (Rules.verifyMatchRule glob pattern srcPrefix dstPrefix dstType dstName srcName srcType queue ctx₂).1 ∧
+    CleanOrder.CtxPermEq
+      (Rules.verifyMatchRule glob pattern srcPrefix dstPrefix dstType dstName srcName srcType queue ctx₁).2
+      (Rules.verifyMatchRule glob pattern srcPrefix dstPrefix dstType dstName srcName srcType queue ctx₂).2 :=
+  CleanOrder.verifyMatchRule_perm glob pattern srcPrefix dstPrefix dstType dstName srcName srcType queue ctx₁ ctx₂ h
+
+/-- non-vacuity (the witness of F20): `./d/a` and `./d/a/.` with hash x, `d/a/` with hash y — in
+    whatever order the map is listed, `d/a` holds y afterwards -/
+example :
+    let x : Rules.HashObj := some [("sha256".toList, "".toList)]
+    let y : Rules.HashObj := some [("sha256".toList, "1".toList)]
+    Rules.cleanArts (some [("./d/a".toList, x), ("./d/a/.".toList, x), ("d/a/".toList, y)]) = some [("d/a".toList, y)] ∧
+    Rules.cleanArts (some [("d/a/".toList, y), ("./d/a/.".toList, x), ("./d/a".toList, x)]) = some [("d/a".toList, y)] := by
+  decide
 
 /-- parameter dictionary: substitution does not depend on its order -/
 theorem parameter_order (layout : TVal) (P Q : List (Str × Str)) (h : P.Perm Q) (hn : (P.map Prod.fst).Nodup) :
